@@ -1934,7 +1934,7 @@ def gen(tier, rng):
         if kind == 'obj':
             return a < 4 or a % 2 == 0
         if kind == 'py':
-            return cap == 1 or b == (dbi[dn] + PY_STYLES.index(a)) % len(PY_VARIANTS)
+            return (cap == 1 and dn in ('dup', 'missing')) or (cap == 0 and b == (dbi[dn] + PY_STYLES.index(a)) % len(PY_VARIANTS))
         if kind == 'bst':
             return (i % 3 == 0) if i in heavy else (i % 2 == 0)
         return i % 4 == 0 if kind == 'write' else i % 2 == 0
@@ -1960,7 +1960,7 @@ def gen(tier, rng):
     ax = [i for i in sel if ENGINE_CALLS[i][0] == 'aux']
     for b in ax:                                         # several documents in one process; keys overlapping up to letter case
         for a in ax:
-            if ENGINE_CALLS[a][2] != ENGINE_CALLS[b][2] and (tier == 'thorough' or ENGINE_CALLS[a][1] == ENGINE_CALLS[b][1] or ENGINE_CALLS[b][1] == 'parse') and (tier == 'thorough' or (ENGINE_CALLS[a][4] == 0 and ENGINE_CALLS[b][4] == 0 and ((ENGINE_CALLS[a][1] == 'parse' and ENGINE_CALLS[b][1] == 'parse') or (a + b) % 3 == 0))):
+            if ENGINE_CALLS[a][2] != ENGINE_CALLS[b][2] and (tier == 'thorough' or ENGINE_CALLS[a][1] == ENGINE_CALLS[b][1] or ENGINE_CALLS[b][1] == 'parse') and (tier == 'thorough' or (ENGINE_CALLS[a][4] == 0 and ENGINE_CALLS[b][4] == 0 and ((ENGINE_CALLS[a][1] == 'parse' and ENGINE_CALLS[b][1] == 'parse' and (a + b) % 2 == 1) or (ENGINE_CALLS[a][1] != 'parse' or ENGINE_CALLS[b][1] != 'parse') and (a + b) % 3 == 0))):
                 yield ('engines_after_other', 3, [b, a])
     groups = {}
     for i in sel:
